@@ -539,3 +539,107 @@ def leaves(sv):
 
 def has_opaque(sv):
     return any(l[0] == "opaque" for l in leaves(sv))
+
+
+# ------------------------------------------------------------------------------------------------ option tables
+def _norm_subject(t):
+    t = t.strip()
+    t = re.sub(r"^\(+|\)+$", "", t) if t.startswith("(") and t.endswith(")") and "," not in t else t
+    t = re.sub(r"^[&*]+", "", t)
+    t = re.sub(r"\.(as_ref|as_deref|as_mut|clone|to_owned|cloned)\(\)", "", t)
+    return t.strip()
+
+
+def _split_top(t):
+    out, depth, cur = [], 0, ""
+    for ch in t:
+        if ch in "([{<":
+            depth += 1
+        elif ch in ")]}>":
+            depth -= 1
+        if ch == "," and depth == 0:
+            out.append(cur.strip())
+            cur = ""
+        else:
+            cur += ch
+    if cur.strip():
+        out.append(cur.strip())
+    return out
+
+
+def _pat_state(p):
+    p = p.strip()
+    p = re.sub(r"^&+", "", p)
+    if re.match(r"^(Some|Ok)\s*\(", p):
+        return "Some"
+    if p in ("None",) or re.match(r"^Err\s*\(", p):
+        return "None"
+    return None      # `_`, a binding: matches anything
+
+
+def cond_holds(cond, asg):
+    """does a path condition (SV condition text) hold when the Option-valued subjects are as in `asg` ({subject text: "Some"|"None"})?
+    -> True / False / None (the condition is about something else).  Understands if-let, let-else (`X is Some`), is_some()/is_none(), and
+    `match` on a subject or on a tuple of subjects."""
+    c = cond.strip()
+    neg = False
+    while c.startswith("not(") and c.endswith(")"):
+        c = c[4:-1].strip()
+        neg = not neg
+    res = None
+    m = re.match(r"^if-let\s+(.+?)\s+=\s+(.+)$", c)
+    if m:
+        st_, subj = _pat_state(m.group(1)), _norm_subject(m.group(2))
+        if st_ and subj in asg:
+            res = asg[subj] == st_
+    if res is None:
+        m = re.match(r"^(.+?)\s+is\s+(Some|None)$", c)
+        if m and _norm_subject(m.group(1)) in asg:
+            res = asg[_norm_subject(m.group(1))] == m.group(2)
+    if res is None:
+        m = re.match(r"^(.+?)\.is_(some|none)\(\)$", c)
+        if m and _norm_subject(m.group(1)) in asg:
+            res = asg[_norm_subject(m.group(1))] == ("Some" if m.group(2) == "some" else "None")
+    if res is None:
+        m = re.match(r"^(.+?)\s+matches\s+(.+?)(\s+if\s+.+)?$", c)
+        if m:
+            subj, pat, guard = m.group(1).strip(), m.group(2).strip(), m.group(3)
+            subs = _split_top(subj[1:-1]) if subj.startswith("(") and subj.endswith(")") else [subj]
+            alts = []
+            for alt in _split_top(pat.replace(" | ", " ,| ")) if False else [pat]:
+                pats = _split_top(alt[1:-1]) if alt.startswith("(") and alt.endswith(")") and len(subs) > 1 else [alt]
+                if len(pats) != len(subs):
+                    alts.append(None)
+                    continue
+                ok = True
+                unknown = False
+                for sb, pt in zip(subs, pats):
+                    ps = _pat_state(pt)
+                    if ps is None:
+                        if not re.match(r"^(_|[a-z_]\w*)$", pt.strip().lstrip("&")):
+                            unknown = True     # a refutable pattern on something else (`Some(RenameRule::CamelCase)` is handled by _pat_state)
+                        continue
+                    key = _norm_subject(sb)
+                    if key not in asg:
+                        unknown = True
+                        continue
+                    if asg[key] != ps:
+                        ok = False
+                    elif re.match(r"^(Some|Ok)\s*\(\s*(_|[a-z_]\w*)\s*\)$", pt.strip().lstrip("&")) is None:
+                        unknown = True     # Some(<refutable inner pattern>): holds only for some payloads
+                alts.append(False if not ok else (None if unknown or guard else True))
+            res = alts[0] if alts else None
+    if res is None:
+        return None
+    return (not res) if neg else res
+
+
+def select_path(paths, asg):
+    """the alternative taken for an assignment of the Option-valued subjects: the first path (in evaluation order, as SVEval lists them) none of
+    whose conditions is false; `certain` says whether every condition was decided"""
+    for (conds, sv) in paths:
+        vals = [cond_holds(c, asg) for c in conds]
+        if any(v is False for v in vals):
+            continue
+        return conds, sv, all(v is True for v in vals)
+    return None
